@@ -9,6 +9,19 @@ import itertools
 from typing import Any, Dict, List, Optional, Tuple
 
 
+class _Any:
+    """The shipped @any wildcard: any mnemonic / any non-empty operand."""
+    def __repr__(self):
+        return "@any"
+
+
+ANY = _Any()
+
+
+class _Boundary(str):
+    """Pseudo operand field standing for '|addr::mnemonic' of the next record (quirk model only)."""
+
+
 class Unsupported(Exception):
     """The rule uses a form the model does not interpret (case is skipped)."""
 
@@ -103,6 +116,8 @@ class Parser:
                 n = Node("icap", s)
                 n.is_def = self._cap(("i", s))
                 return n
+            if s == "@any":
+                return Node("item", ANY, None)
             if s.startswith("$") or s.startswith("@"):
                 raise Unsupported(s)
             return Node("item", s, None)
@@ -121,7 +136,9 @@ class Parser:
                 raise Unsupported("$not arity")
             return Node("igroup", OPS[name], [self.inst(c) for c in body], lo, hi)
         sname = str(name)
-        if sname.startswith(("$", "@", "&")) or sname == "times":
+        if sname == "@any":
+            sname = ANY
+        elif sname.startswith(("$", "@", "&")) or sname == "times":
             raise Unsupported(sname)
         if isinstance(body, list):
             if not body:
@@ -146,6 +163,8 @@ class Parser:
                 n = Node("ocap", s)
                 n.is_def = self._cap(("o", s))
                 return n
+            if s == "@any":
+                return Node("olit", ANY)
             if s.startswith("$") or s.startswith("@") or s == "times":
                 raise Unsupported(s)
             return Node("olit", s)
@@ -183,6 +202,8 @@ class Parser:
             raise Unsupported("bool deref value")
         if isinstance(v, (str, int)):
             s = str(v)
+            if s == "@any":
+                return [ANY]
             if s.startswith(("&", "$", "@")):
                 raise Unsupported("deref value " + s)
             return [s]
@@ -229,15 +250,19 @@ def parse_bracket(field: str):
     return a, b, c, k
 
 
-def _reg_eq(want: str, got: Optional[str]) -> bool:
+def _reg_eq(want, got: Optional[str]) -> bool:
     if got is None:
         return False
+    if want is ANY:
+        return got != ""
     return want == got or "%" + want == got
 
 
-def _const_eq(want: str, got: Optional[str]) -> bool:
+def _const_eq(want, got: Optional[str]) -> bool:
     if got is None:
         return False
+    if want is ANY:
+        return got != ""
     if want == got:
         return True
     neg = want.startswith("-")
@@ -324,11 +349,25 @@ class Matcher:
             if i >= self.n:
                 return set()
             _, mnem, ops = self.insts[i]
-            ok = (mnem == node.name) if self.mn_full else (node.name in mnem)
+            ok = True if node.name is ANY else (mnem == node.name) if self.mn_full else (node.name in mnem)
             if not ok:
                 return set()
             if not node.children:
                 return {(i + 1, env)}
+            if "any_macro_crosses_record" in self.quirks:
+                # open finding F7: the shipped @any (= [^, ]{1,1000}) admits '|', so an @any operand item past the
+                # last operand swallows '|addr::mnemonic' of the next record and matching continues in its operands
+                ext, bounds = list(ops), []
+                for nxt in range(i + 1, min(i + 4, self.n)):
+                    a2, m2, o2 = self.insts[nxt]
+                    bounds.append(len(ext))
+                    ext.append(_Boundary(f"|{a2}::{m2}"))
+                    ext.extend(o2)
+                ext = tuple(ext)
+                res = set()
+                for p, e in self._seq(lambda nd, p, e: self.op(nd, ext, p, e), node.children, 0, env):
+                    res.add((i + 1 + sum(1 for b in bounds if b < p), e))
+                return res
             return {(i + 1, e) for _, e in self._seq(lambda nd, p, e: self.op(nd, ops, p, e), node.children, 0, env)}
         if k == "icap":
             if i >= self.n:
@@ -366,8 +405,15 @@ class Matcher:
         if kind == "olit":
             if k >= len(fields):
                 return set()
-            ok = (fields[k] == node.name) if self.op_full else (node.name in fields[k])
+            if isinstance(fields[k], _Boundary):
+                ok = node.name is ANY
+            elif node.name is ANY:
+                ok = fields[k] != ""
+            else:
+                ok = (fields[k] == node.name) if self.op_full else (node.name in fields[k])
             return {(k + 1, env)} if ok else set()
+        if kind in ("ocap", "oreg", "oderef") and k < len(fields) and isinstance(fields[k], _Boundary):
+            return set()
         if kind == "ocap":
             if k >= len(fields) or fields[k] == "":
                 return set()
@@ -409,7 +455,7 @@ class Matcher:
             if g == "any":
                 return self._any_order(fn, node.children, k, env)
             if g == "not":
-                if k >= len(fields):
+                if k >= len(fields) or isinstance(fields[k], _Boundary):
                     return set()
                 return set() if self.op(node.children[0], fields, k, env) else {(k + 1, env)}
         if kind == "oderef":
